@@ -128,7 +128,7 @@ class Polylist(primitive.Primitive):
 
         if len(sources) == 0:
             raise DaeIncompleteError('A polylist set needs at least one input for vertex positions')
-        if 'VERTEX' not in sources:
+        if not sources.get('VERTEX'):
             raise DaeIncompleteError('Polylist requires vertex input')
 
         # find max offset
